@@ -852,11 +852,9 @@ def run_history(job):
                 obj.to_json()
                 if hasattr(obj, "to_dict"):
                     dd = obj.to_dict()
-                    for pth in shared_containers(dd, obj):
-                        fail({"call": M.__name__ + ".to_dict", "broken": "returned dict shares a mutable container with the model",
-                              "path": pth},
-                             "to_dict()[%s] is a container the model object itself keeps: editing the returned dict edits the model"
-                             % pth, step)
+                    # informational only: the statement of C02 speaks of frames handed out, not of dicts; a dict output that
+                    # shares a container with the model is counted in the evidence, never reported
+                    rec["to_dict_shared"] = len(shared_containers(dd, obj))
                     try:                                  # a caller may do what it likes with the returned dict
                         for k in list(dd)[:2]:
                             dd[k] = None
